@@ -84,15 +84,19 @@ def render_config(cfg, syntax, style=None):
     vline_idx = len(lines)
     if is_toml(syntax):
         vq = '"'
-        lines.append("current_version = %s%s%s" % (vq, cfg["current_version"], vq))
-        vprefix, vsuffix = "current_version = " + vq, vq
-        lines.append("version_pattern = %s" % toml_str(cfg["version_pattern"], style.get("toml_literal")))
+        eq = style.get("toml_eq", " = ")
+        veq = style.get("version_eq", eq)
+        lines.append("current_version%s%s%s%s" % (veq, vq, cfg["current_version"], vq))
+        vprefix, vsuffix = "current_version" + veq + vq, vq
+        lines.append("version_pattern%s%s" % (eq, toml_str(cfg["version_pattern"], style.get("toml_literal"))))
         for key in STRING_KEYS:
             if cfg.get(key) is not None:
-                lines.append("%s = %s" % (key, toml_str(cfg[key], style.get("toml_literal"))))
+                lines.append("%s%s%s" % (key, eq, toml_str(cfg[key], style.get("toml_literal"))))
         for key in BOOL_KEYS:
             if cfg.get(key) is not None:
-                lines.append("%s = %s" % (key, "true" if cfg[key] else "false"))
+                lines.append("%s%s%s" % (key, eq, "true" if cfg[key] else "false"))
+        if style.get("comment"):
+            lines.append("# " + style["comment"])
         lines.append("")
         lines.append("[%s]" % fsec)
         for key, pats in cfg.get("file_patterns", []):
@@ -106,15 +110,19 @@ def render_config(cfg, syntax, style=None):
     else:
         q = style.get("quote", '"')
         vq = style.get("version_quote", q)
-        lines.append("current_version = %s%s%s" % (vq, cfg["current_version"], vq))
-        vprefix, vsuffix = "current_version = " + vq, vq
-        lines.append("version_pattern = %s%s%s" % (q, cfg["version_pattern"], q))
+        eq = style.get("ini_delim", " = ")
+        veq = style.get("version_eq", eq)
+        lines.append("current_version%s%s%s%s" % (veq, vq, cfg["current_version"], vq))
+        vprefix, vsuffix = "current_version" + veq + vq, vq
+        lines.append("version_pattern%s%s%s%s" % (eq, q, cfg["version_pattern"], q))
         for key in STRING_KEYS:
             if cfg.get(key) is not None:
-                lines.append("%s = %s%s%s" % (key, q, cfg[key], q))
+                lines.append("%s%s%s%s%s" % (key, eq, q, cfg[key], q))
         for key in BOOL_KEYS:
             if cfg.get(key) is not None:
-                lines.append("%s = %s" % (key, style.get("bool_true", "True") if cfg[key] else style.get("bool_false", "False")))
+                lines.append("%s%s%s" % (key, eq, style.get("bool_true", "True") if cfg[key] else style.get("bool_false", "False")))
+        if style.get("comment"):
+            lines.append("# " + style["comment"])
         lines.append("")
         lines.append("[%s]" % fsec)
         for key, pats in cfg.get("file_patterns", []):
